@@ -40,7 +40,49 @@ fn rename_component(doc: &Value, old: &str, new: &str) -> Value {
     d
 }
 
-fn run_case(c: &WtCase, seed: u64, idx: u64, st: &mut Stats) -> Vec<Violation> {
+/// The printed modules as they are after the edit prelude: a comment line inserted at the top and two blanks at
+/// the start of what was the second line (occurrence ranges shifted accordingly).
+fn after_prelude(printed: &[crate::gen::print::PrintedModule]) -> Vec<crate::gen::print::PrintedModule> {
+    printed
+        .iter()
+        .map(|pm| {
+            let mut q = pm.clone();
+            let b1 = pm.text.find('\n').map(|i| i + 1).unwrap_or(pm.text.len());
+            q.text = format!("// c\n{}  {}", &pm.text[..b1], &pm.text[b1..]);
+            let shift = |r: &std::ops::Range<usize>| {
+                let d = 5 + if r.start >= b1 { 2 } else { 0 };
+                (r.start + d)..(r.end + d)
+            };
+            for o in q.occs.iter_mut() {
+                o.range = shift(&o.range);
+                if let Some(ql) = &o.qual {
+                    o.qual = Some(shift(ql));
+                }
+            }
+            q
+        })
+        .collect()
+}
+
+fn run_case(c0: &WtCase, seed: u64, idx: u64, st: &mut Stats) -> Vec<Violation> {
+    // every fourth session: the files on disk hold the printed program; the client opens every module and sends
+    // ONE didChange with two ranged changes (a comment line at 0:0, then two blanks at 2:0 of the result —
+    // contentChanges apply one after the other) and keeps the documents open; everything below works on the
+    // edited texts
+    let prelude = idx % 4 == 2;
+    let edited;
+    let c: &WtCase = if prelude {
+        let printed = after_prelude(&c0.printed);
+        edited = WtCase {
+            prog: c0.prog.clone(),
+            sources: sources_of(&printed),
+            printed,
+            expected: c0.expected.clone(),
+        };
+        &edited
+    } else {
+        c0
+    };
     let mut out: Vec<Violation> = Vec::new();
     let base_doc = match compile_doc(&c.sources, "c18a") {
         Ok(d) => d,
@@ -50,7 +92,7 @@ fn run_case(c: &WtCase, seed: u64, idx: u64, st: &mut Stats) -> Vec<Violation> {
         }
     };
     let dir = TempDir::new("c18");
-    write_workspace(&dir.path, c);
+    write_workspace(&dir.path, c0);
     let docs: Vec<ClientDoc> = c.printed.iter().map(|m| ClientDoc::new(&m.text)).collect();
     let uris: Vec<String> = c.printed.iter().map(|m| file_uri(&dir.path.join(&m.file))).collect();
     let mut rng = Rng::for_case(seed, "c18pos", idx);
@@ -105,6 +147,24 @@ fn run_case(c: &WtCase, seed: u64, idx: u64, st: &mut Stats) -> Vec<Violation> {
             }
         }
         st.inc("sessions_after_drafts");
+    }
+    if prelude {
+        for (m, pm) in c0.printed.iter().enumerate() {
+            let r = lsp.did_open(&uris[m], &pm.text).and_then(|_| {
+                lsp.did_change(
+                    &uris[m],
+                    2,
+                    &[(Some([[0, 0], [0, 0]]), "// c\n".to_owned()), (Some([[2, 0], [2, 0]]), "  ".to_owned())],
+                )
+            });
+            if let Err(e) = r {
+                return vec![Violation::new(
+                    "the language server died or stopped answering during the edit prelude",
+                    json!({"signature": "C18 server-failure on edit prelude", "error": crate::util::clip(&format!("{e:?}"), 500)}),
+                )];
+            }
+        }
+        st.inc("sessions_after_a_two_change_notification");
     }
     let mut fresh = 0;
     for (m, byte, kind) in probes {
